@@ -21,7 +21,8 @@ MANIFEST = {
                 "bound) = ascending permutation for EVERY input list and every strict partial order (sort_total/sort_perm/sort_sorted/"
                 "sort_frame, lsort_int) and with the comparison function (= the element type's operator<; the header has no sort(comparator) "
                 "overload) as a parameter: for ANY function termination within the fuel, frame and permutation (sort_any_comparator, "
-                "sort_frame_any, heap level ptr_sort_comparator: no null pointer, no link written), order of the result for strict orders and "
+                "sort_frame_any, sort_checked_reads: the variant with segment-checked reads never faults; heap level ptr_sort_comparator, "
+                "ptr_sort_writes_chain_only: no null pointer, no link written, no value written outside the chain), order of the result for strict orders and "
                 "for a non-strict total preorder such as <= (sort_comparator, sort_strict_order, sort_nonstrict, sort_nonstrict_int), the "
                 "quicksort is not stable (sort_not_stable), and an iterator held across sort() keeps its position, not its element "
                 "(ptr_sort_iterators); node ids never handed out twice or lost (nodes_inv); the statement-by-statement heap model of "
